@@ -115,6 +115,10 @@ class FakeSocket:
         host, port = addr[0], addr[1]
         if host in ("", None):
             host = "0.0.0.0"
+        if self.net.bind_fail is not None:        # one-shot injected failure of the next bind()
+            code, self.net.bind_fail = self.net.bind_fail, None
+            self.net.count("bind_" + errno.errorcode[code])
+            raise oserror(code)
         for s in self.net.sockets:
             if s is not self and s.state == "listening" and s.laddr[1] == port:
                 raise oserror(errno.EADDRINUSE)
@@ -388,6 +392,7 @@ class SimNet:
             self.rates.update(rates)
         self.faults_on = True
         self.errno_plan = {}        # (op, owner) -> [call_index, errno]  one-shot injected errnos
+        self.bind_fail = None       # errno for the next bind(), one-shot
         self.current_owner = None
         self.ports = list(ports)
         self._port_next = 0
